@@ -246,3 +246,178 @@ theorem joinWith_last (sep : Str) (ls : List Str) (hne : ls ≠ []) :
       simp [List.append_assoc]
 
 end Pyxv.Validator
+
+namespace Pyxv.Validator
+
+/-! ## first and last character of a rewritten text -/
+
+theorem flush_head (s0 : Str) (chain : List Str) : ∃ d r, flush (s0 :: chain) = d :: r ∧ (d = '/' ∨ d = '$') := by
+  cases chain with
+  | nil => exact ⟨'/', s0, by simp [flush, chainText], .inl rfl⟩
+  | cons x xs =>
+    have hf : flush (s0 :: x :: xs) = replacement (s0 :: x :: xs) := rfl
+    by_cases hk : keepMatch (chainText (s0 :: x :: xs)) = true
+    · refine ⟨'/', s0 ++ chainText (x :: xs), ?_, .inl rfl⟩
+      rw [hf]; unfold replacement; simp only []; rw [if_pos hk]; rfl
+    · refine ⟨'$', '{' :: ((s0 :: x :: xs).getLastD [] ++ ['}']), ?_, .inr rfl⟩
+      rw [hf]; unfold replacement; simp only []; rw [if_neg hk]; rfl
+
+/-- the first character of the rewritten text is the first character of the text, or `$` -/
+theorem subPaths_first (c : Char) (s : Str) : ∃ d r, subPaths (c :: s) = d :: r ∧ (d = c ∨ d = '$') := by
+  by_cases hc : c = '/'
+  · subst hc
+    by_cases hs : isSeg '/' = true
+    · obtain ⟨r0, ts, h⟩ : ∃ r0 ts, toks ('/' :: s) = .run ('/' :: r0) :: ts := by
+        simp only [toks, pushChar, hs, ↓reduceIte]
+        split
+        · exact ⟨_, _, rfl⟩
+        · exact ⟨[], _, rfl⟩
+      exact ⟨'/', r0 ++ (flush (accOf ts).chain ++ (accOf ts).out),
+        by simp [subPaths, h, renderToks, stepTok, flush, chainText, accOf], .inl rfl⟩
+    · have : (∃ s0 ts, toks ('/' :: s) = .unit s0 :: ts) ∨ (∃ ts, toks ('/' :: s) = .ch '/' :: ts) := by
+        simp only [toks, pushChar, hs, Bool.false_eq_true, ↓reduceIte]
+        split
+        · exact .inl ⟨_, _, rfl⟩
+        · exact .inr ⟨_, rfl⟩
+      rcases this with ⟨s0, ts, h⟩ | ⟨ts, h⟩
+      · obtain ⟨d, r, hf, hd⟩ := flush_head s0 (accOf ts).chain
+        refine ⟨d, r ++ (accOf ts).out, ?_, hd⟩
+        have : accOf (Tok.unit s0 :: ts) = ⟨s0 :: (accOf ts).chain, (accOf ts).out⟩ := rfl
+        simp [subPaths, h, renderToks_def, this, hf]
+      · refine ⟨'/', flush (accOf ts).chain ++ (accOf ts).out, ?_, .inl rfl⟩
+        unfold subPaths
+        rw [h, renderToks_eq_out_of_ch]
+        rfl
+  · obtain ⟨r, h⟩ := subPaths_head c s hc
+    exact ⟨c, r, h, .inl rfl⟩
+
+/-- a token list is all units, or ends in a non-unit token followed by units -/
+theorem toks_tail_units (a : List Tok) :
+    (∃ us : List Str, a = us.map Tok.unit) ∨
+    (∃ (a' : List Tok) (t : Tok) (us : List Str), a = a' ++ t :: us.map Tok.unit ∧ ∀ s, t ≠ .unit s) := by
+  induction a with
+  | nil => exact .inl ⟨[], rfl⟩
+  | cons x rest ih =>
+    rcases ih with ⟨us, rfl⟩ | ⟨a', t, us, rfl, ht⟩
+    · cases x with
+      | unit s => exact .inl ⟨s :: us, rfl⟩
+      | run s => exact .inr ⟨[], .run s, us, rfl, by intro s'; simp⟩
+      | ch c => exact .inr ⟨[], .ch c, us, rfl, by intro s'; simp⟩
+    · exact .inr ⟨x :: a', t, us, rfl, ht⟩
+
+/-- a text is all segment characters, or ends in a non-segment character followed by segment characters -/
+theorem str_tail_seg (s : Str) :
+    (∀ c ∈ s, isSeg c = true) ∨ (∃ y d w, s = y ++ d :: w ∧ isSeg d = false ∧ ∀ c ∈ w, isSeg c = true) := by
+  induction s with
+  | nil => exact .inl (by simp)
+  | cons x rest ih =>
+    rcases ih with h | ⟨y, d, w, rfl, hd, hw⟩
+    · by_cases hx : isSeg x = true
+      · exact .inl (by intro c hc; rcases List.mem_cons.1 hc with rfl | h'; exact hx; exact h c h')
+      · exact .inr ⟨[], x, rest, rfl, by simpa using hx, h⟩
+    · exact .inr ⟨x :: y, d, w, rfl, hd, hw⟩
+
+theorem flush_last (us : List Str) (w' : Str) (c : Char) :
+    ∃ z e, flush (us ++ [w' ++ [c]]) = z ++ [e] ∧ (e = c ∨ e = '}') := by
+  have hct : chainText (us ++ [w' ++ [c]]) = (chainText us ++ '/' :: w') ++ [c] := by
+    rw [chainText_append]; simp [chainText]
+  unfold flush
+  split
+  · unfold replacement
+    simp only []
+    split
+    · exact ⟨_, c, hct, .inl rfl⟩
+    · exact ⟨'$' :: '{' :: ((us ++ [w' ++ [c]]).getLastD []), '}', by simp, .inr rfl⟩
+  · exact ⟨_, c, hct, .inl rfl⟩
+
+theorem foldr_units_init (us : List Str) (w : Str) :
+    (us.map Tok.unit).foldr stepTok ⟨[w], []⟩ = ⟨us ++ [w], []⟩ := by
+  rw [foldr_units]
+
+/-- rendering of a token list followed by one final unit -/
+theorem renderToks_final_unit (a : List Tok) (w' : Str) (c : Char) :
+    ∃ z e, renderToks (a ++ [.unit (w' ++ [c])]) = z ++ [e] ∧ (e = c ∨ e = '}') := by
+  rcases toks_tail_units a with ⟨us, rfl⟩ | ⟨a', t, us, rfl, ht⟩
+  · obtain ⟨z, e, hf, he⟩ := flush_last us w' c
+    refine ⟨z, e, ?_, he⟩
+    have : accOf (us.map Tok.unit ++ [Tok.unit (w' ++ [c])]) = ⟨us ++ [w' ++ [c]], []⟩ := by
+      rw [accOf, List.foldr_append]
+      simp only [List.foldr_cons, List.foldr_nil, stepTok]
+      exact foldr_units_init us _
+    rw [renderToks_def, this]
+    simpa using hf
+  · obtain ⟨z, e, hf, he⟩ := flush_last us w' c
+    have hU : (us.map Tok.unit ++ [Tok.unit (w' ++ [c])]).foldr stepTok ⟨[], []⟩ = ⟨us ++ [w' ++ [c]], []⟩ := by
+      rw [List.foldr_append]
+      simp only [List.foldr_cons, List.foldr_nil, stepTok]
+      exact foldr_units_init us _
+    have hacc : ∃ x, accOf (a' ++ t :: us.map Tok.unit ++ [Tok.unit (w' ++ [c])])
+        = ⟨(accOf a').chain, (accOf a').out ++ (x ++ (z ++ [e]))⟩ := by
+      have e1 : a' ++ t :: us.map Tok.unit ++ [Tok.unit (w' ++ [c])]
+          = a' ++ (t :: (us.map Tok.unit ++ [Tok.unit (w' ++ [c])])) := by simp
+      rw [e1, accOf, List.foldr_append, List.foldr_cons, hU]
+      cases t with
+      | unit s => exact absurd rfl (ht s)
+      | run s =>
+        refine ⟨s, ?_⟩
+        simp only [stepTok, List.append_nil, hf]
+        exact foldr_out _ _
+      | ch d =>
+        refine ⟨[d], ?_⟩
+        simp only [stepTok, List.append_nil, hf, List.singleton_append]
+        exact foldr_out _ _
+    obtain ⟨x, hx⟩ := hacc
+    refine ⟨flush (accOf a').chain ++ ((accOf a').out ++ (x ++ z)), e, ?_, he⟩
+    rw [renderToks_def, hx]
+    simp [List.append_assoc]
+
+/-- the last character of the rewritten text is the last character of the text, or `}` -/
+theorem subPaths_last (x : Str) (c : Char) (hslash : isSeg '/' = false) :
+    ∃ z e, subPaths (x ++ [c]) = z ++ [e] ∧ (e = c ∨ e = '}') := by
+  by_cases hc : isSeg c = true
+  · rcases str_tail_seg (x ++ [c]) with hall | ⟨y, d, w, hs, hd, hw⟩
+    · exact ⟨x, c, subPaths_allSeg _ hall, .inl rfl⟩
+    · -- `w` is non-empty and ends with `c`
+      have hwne : ∃ w', w = w' ++ [c] := by
+        have hr := congrArg List.reverse hs
+        simp only [List.reverse_append, List.reverse_cons, List.reverse_nil, List.nil_append,
+          List.singleton_append, List.append_assoc] at hr
+        cases hwr : w.reverse with
+        | nil =>
+          rw [hwr] at hr
+          simp only [List.nil_append, List.cons.injEq] at hr
+          rw [hr.1] at hc
+          rw [hc] at hd
+          exact absurd hd (by simp)
+        | cons e r =>
+          rw [hwr] at hr
+          simp only [List.cons_append, List.cons.injEq] at hr
+          refine ⟨r.reverse, ?_⟩
+          have := congrArg List.reverse hwr
+          simp only [List.reverse_reverse, List.reverse_cons] at this
+          rw [this, hr.1]
+      obtain ⟨w', rfl⟩ := hwne
+      rw [hs]
+      by_cases hd2 : d = '/'
+      · subst hd2
+        have ht : toks (y ++ '/' :: (w' ++ [c])) = toks y ++ [.unit (w' ++ [c])] := by
+          rw [toks_append y _ (by intro c' r h; injection h with h _; rw [← h]; exact hslash)]
+          have := toks_unit (w' ++ [c]) [] hslash (by simp) hw (by intro s t; simp [toks])
+          simp only [List.append_nil] at this
+          rw [this]
+          simp [toks]
+        unfold subPaths
+        rw [ht]
+        exact renderToks_final_unit _ w' c
+      · refine ⟨subPaths y ++ d :: w', c, ?_, .inl rfl⟩
+        rw [subPaths_split y _ d (by simp [isDelim, hd, hd2]), subPaths_allSeg _ hw]
+        simp
+  · refine ⟨subPaths x, c, ?_, .inl rfl⟩
+    have ht : toks (x ++ [c]) = toks x ++ [.ch c] := by
+      rw [toks_append x [c] (by intro c' r h; injection h with h _; rw [← h]; simpa using hc)]
+      simp [toks, pushChar, hc]
+    unfold subPaths
+    rw [ht, renderToks_ch_split]
+    simp [renderToks, flush, chainText]
+
+end Pyxv.Validator
